@@ -16,7 +16,8 @@ section
 variable (T : Stat) {s : Store} {out : CSem2.Outcome} {lp : Bool × Bool} {brk cont : String} {c : SCtx}
   {nd nd' : Nat} {pre post : List Item} {env : Env} {M : Mem}
 
-theorem sim_while (n : Nat) (ih : ∀ m, m ≤ n → SimStmt T m) (e : Expr) (b : Stmt)
+theorem sim_while (n : Nat) (hc : ∀ m, m ≤ n → CallOK T m) (ih : ∀ m, m ≤ n → SimStmt T m) (e : Expr3)
+    (b : Stmt)
     (hex : exec T.S.cs T.P (n + 1) s (.while_ e b) = some out) (hfr : frag T.P T.cnts (.while_ e b) = true)
     (hwt : Stmt.wt T.vtys T.ret lp.1 lp.2 nd (.while_ e b) = some nd') (hp : Pos T c nd pre)
     (hext : Ext T (funcstmt T.S.cs brk cont (.while_ e b) c).ctx)
@@ -24,7 +25,9 @@ theorem sim_while (n : Nat) (ih : ∀ m, m ≤ n → SimStmt T m) (e : Expr) (b 
     (inv : SInv T.M0 T.S.cs T.cnts T.σ T.vtys s env M) :
     Post T lp brk cont (T.at env M pre) (pre ++ (funcstmt T.S.cs brk cont (.while_ e b) c).items)
       (funcstmt T.S.cs brk cont (.while_ e b) c).ctx out := by
-  simp only [frag] at hfr
+  simp only [frag, Bool.and_eq_true] at hfr
+  have hfe : efrag T e := by simp only [efrag, Bool.and_eq_true]; exact hfr.1
+  have hfr := hfr.2
   simp only [Stmt.wt] at hwt
   split at hwt
   · rename_i hwe
@@ -32,10 +35,10 @@ theorem sim_while (n : Nat) (ih : ∀ m, m ≤ n → SimStmt T m) (e : Expr) (b 
     obtain ⟨hnb, hcb⟩ := wt_noDead _ _ b _ _ _ _ hwt
     have hj1 : ((c.addBlocks 3).atLabel (lblName "while_cond" (c.blockid + 1))).jump = none := rfl
     have hj2 : (((c.addBlocks 3).atLabel (lblName "while_cond" (c.blockid + 1))).upd
-      (exprOut T.S.cs ((c.addBlocks 3).atLabel (lblName "while_cond" (c.blockid + 1))) e).ctx).jump = none := rfl
-    simp only [funcstmt, lowerE_eq T.S.cs hj1, lowerJnz_eq T.S.cs hj2] at hext hits ⊢
-    have ge := exprOut_good T.S.cs ((c.addBlocks 3).atLabel (lblName "while_cond" (c.blockid + 1))) e
-    generalize hoe : exprOut T.S.cs ((c.addBlocks 3).atLabel (lblName "while_cond" (c.blockid + 1))) e = oe
+      (exprOut3 T.S.cs ((c.addBlocks 3).atLabel (lblName "while_cond" (c.blockid + 1))) e).ctx).jump = none := rfl
+    simp only [funcstmt, lowerE3_eq T.S.cs hj1, lowerJnz_eq T.S.cs hj2] at hext hits ⊢
+    have ge := exprOut3_good T.S.cs ((c.addBlocks 3).atLabel (lblName "while_cond" (c.blockid + 1))) e
+    generalize hoe : exprOut3 T.S.cs ((c.addBlocks 3).atLabel (lblName "while_cond" (c.blockid + 1))) e = oe
       at *
     have sj := jnzArg_straight T.S.cs (((c.addBlocks 3).atLabel (lblName "while_cond" (c.blockid + 1))).upd
       oe.ctx).ctx e.ty oe.val
@@ -116,8 +119,8 @@ theorem sim_while (n : Nat) (ih : ∀ m, m ≤ n → SimStmt T m) (e : Expr) (b 
         intro _ s env M out hex inv
         simp only [exec, Option.bind_eq_some_iff] at hex
         obtain ⟨v, hev, hex⟩ := hex
-        obtain ⟨k1, env1, st, hreach, inv1, hat⟩ := sim_branch T hpc e 0
-          (by rw [hoe, addBlocks_zero, hoj]; exact hextc) hwe hev
+        obtain ⟨k1, env1, st, hreach, inv1, hat⟩ := sim_branch T 0 (hc 0 (Nat.zero_le _)) hpc e 0
+          (by rw [hoe, addBlocks_zero, hoj]; exact hextc) hwe hfe hev
           (by rw [hoe, addBlocks_zero, hoj]; exact hitsb) hcb' hcj inv
         by_cases hv0 : v = 0
         · rw [if_pos hv0] at hex
@@ -133,8 +136,8 @@ theorem sim_while (n : Nat) (ih : ∀ m, m ≤ n → SimStmt T m) (e : Expr) (b 
         intro hk s env M out hex inv
         simp only [exec, Option.bind_eq_some_iff] at hex
         obtain ⟨v, hev, hex⟩ := hex
-        obtain ⟨k1, env1, st, hreach, inv1, hat⟩ := sim_branch T hpc e 0
-          (by rw [hoe, addBlocks_zero, hoj]; exact hextc) hwe hev
+        obtain ⟨k1, env1, st, hreach, inv1, hat⟩ := sim_branch T (k + 1) (hc (k + 1) hk) hpc e 0
+          (by rw [hoe, addBlocks_zero, hoj]; exact hextc) hwe hfe hev
           (by rw [hoe, addBlocks_zero, hoj]; exact hitsb) hcb' hcj inv
         by_cases hv0 : v = 0
         · rw [if_pos hv0] at hex
